@@ -31,10 +31,10 @@ HELPERS = os.path.join(os.path.dirname(os.path.dirname(os.path.abspath(__file__)
 
 VALUES_MATCHER_OK = ['wl_surface', '.commit', 'A: wl_pointer, wl_surface.[commit, destroy]', '! wl_callback, .frame', 'xdg_*.configure, 12',
                      '(x=0, y=0)', '.set_title("my app")', 'wl_pointer.[! motion, frame]', '5b', '.("a\\b")', ".('q')", 'żółć_*', '(="-r")', 'x -r y',
-                     '.set_title("C:\\\\dir\\\\n")', '.x("\\")', '*', '!']
+                     '.set_title("C:\\\\dir\\\\n")', '.x("\\")', '*', '!', '.set_title("\U0001F600 \U0001D4D0")', '.x("\u2028\x7f")']
 VALUES_MATCHER_BAD = ['[', 'a.b.c', '(', 'a@b@c', '"', 'wl_surface@3', 'a!b!c', 'x(']
-VALUES_PATH = ['file.log', '/tmp/x y.log', 'dir/with"quote', 'back\\slash', 'ünï.log', "it's.log", 'a b c', '$HOME', '`x`', '%s', 'tab\there']
-WORDS = ['prog', 'arg1', '-f', 'x', '-r', '--run', '-g', '--gdb', '--', '', 'a b', '-Cr', '--args', '--ex', 'r', 'q', '-l', 'file', '"q"', 'back\\n', "'s'", 'żółć',
+VALUES_PATH = ['\U0001F600.log', 'dir\U00020000/x', 'file.log', '/tmp/x y.log', 'dir/with"quote', 'back\\slash', 'ünï.log', "it's.log", 'a b c', '$HOME', '`x`', '%s', 'tab\there']
+WORDS = ['\U0001F600', 'prog', 'arg1', '-f', 'x', '-r', '--run', '-g', '--gdb', '--', '', 'a b', '-Cr', '--args', '--ex', 'r', 'q', '-l', 'file', '"q"', 'back\\n', "'s'", 'żółć',
          '-p', '--supress', '-b', '*', '-Cg']
 
 
@@ -267,9 +267,9 @@ def gdb_e2e(ctx, rng, d, parse_args):
         tail = open(log, errors='replace').read()[-400:] if os.path.exists(log) else ''
         ctx.violation('gdb-inner-argv', 'the instance inside gdb never ran for words %r (python command: %r; gdb said: %r)' % (ref['left'], got[1][:300], tail), case)
         return
-    inner = json.load(open(out_probe))
+    inner = [''.join(chr(c) for c in a) for a in json.load(open(out_probe))]
     if inner != ref['left']:
-        ctx.violation('gdb-inner-argv', 'the instance inside gdb sees sys.argv %r, the words before the marker are %r' % (inner, ref['left']), case)
+        ctx.violation('gdb-inner-argv', 'the instance inside gdb sees sys.argv %a, the words before the marker are %a' % (inner, ref['left']), case)
         return
     ctx.sig(argv)
 
